@@ -21,6 +21,7 @@ import (
 	"sort"
 	"strings"
 	"sync"
+	"sync/atomic"
 	"time"
 
 	"github.com/IBM/TSS/mpc/bls"
@@ -466,6 +467,7 @@ func sigDKG(mk func() []sigDKGParty, ids []uint16, t int, o sigDKGOpts) *sigDKGR
 		o2.grace = 3 * o.grace
 		r2 := sigRunDKG(mk(), ids, t, o2)
 		if !r2.stuck && r2.errText == "" {
+			atomic.AddInt64(&sigStuckNotReproduced, 1)
 			return r2
 		}
 		r2.policy = r.policy
@@ -473,6 +475,9 @@ func sigDKG(mk func() []sigDKGParty, ids []uint16, t int, o sigDKGOpts) *sigDKGR
 	}
 	return r
 }
+
+// key generations that looked stuck once and completed when their order of deliveries was repeated (machine load)
+var sigStuckNotReproduced int64
 
 func (r *sigDKGResult) allDone() bool {
 	for _, d := range r.done {
@@ -2496,6 +2501,7 @@ func sigMain() {
 		dkgs += nd
 		mu.Unlock()
 	})
-	em.lines([]obj{{"e": "summary", "cases": total, "dkgs": dkgs, "wall_ms": time.Since(t0).Milliseconds()}})
+	em.lines([]obj{{"e": "summary", "cases": total, "dkgs": dkgs, "wall_ms": time.Since(t0).Milliseconds(),
+		"dkg_stuck_not_reproduced": atomic.LoadInt64(&sigStuckNotReproduced)}})
 	em.flush()
 }
